@@ -25,7 +25,31 @@ For every module-level function (and every method of class LazyList) it computes
 The analysis is flow-sensitive on the function's own statement structure (strong
 updates on straight-line code, joins at branches, loops to a fixed point), and
 flow-insensitive for everything a closure (nested def / lambda) can see.  Nested
-functions and lambdas are analysed as part of the enclosing function.
+functions and lambdas are analysed as part of the enclosing function, with Python's
+static scoping:
+
+  * SCOPES.  A name is local to a nested def / lambda when it is a parameter or is bound
+    anywhere in its body (assignment, for / with / except target, import, inner def),
+    unless declared nonlocal / global; every other name resolves to the nearest enclosing
+    scope that has it local, as in Python.  Same-named variables of different scopes are
+    different variables and are kept apart (`chunk` the parameter of one helper and
+    `chunk` the accumulator of a sibling generator never meet).  Soundness: this IS the
+    language's resolution rule, so no flow of values between two such variables exists
+    that the separation could hide; a function using nonlocal / global falls back to one
+    flow-insensitive environment for its enclosing function as before.
+  * PARAMETERS of a nested def that DOES NOT ESCAPE - every load of its name in the
+    enclosing function is the callee of a call without * / ** arguments, and it carries no
+    decorator other than `lazylist` (which calls it through with the very same arguments) -
+    are bound to the join, per parameter, of the actual arguments at those call sites
+    (defaults included, surplus positionals wrapped into the * parameter).  Soundness: the
+    function object is never stored, returned or passed on, so every invocation at run
+    time happens at one of these syntactic call sites (recursive calls and calls from
+    sibling nested functions are call sites too), and the value a parameter holds is the
+    value of the corresponding actual there; the sites are evaluated under the
+    flow-insensitive environment of their own scope and the bindings are iterated to a
+    fixed point.  A nested def that escapes, and every lambda that is not called on the
+    spot, keeps the old treatment: each parameter may be anything the enclosing function
+    can reach.
 
 The same analysis runs on every element template and every modifier template
 (origins: 0 = a value taken from the stack, 1 = the context, 2 = a function operand).
@@ -153,6 +177,73 @@ EXTERNAL_MODULES = {
 }
 
 
+def _own_nodes(body):
+    """the nodes of a function body that belong to its own scope (nested defs / lambdas are
+    yielded but not entered)"""
+    stack = list(body)
+    while stack:
+        n = stack.pop()
+        yield n
+        if isinstance(n, (ast.FunctionDef, ast.AsyncFunctionDef, ast.Lambda, ast.ClassDef)):
+            continue
+        stack.extend(ast.iter_child_nodes(n))
+
+
+def scope_locals(node):
+    """names local to a nested def / lambda: parameters and everything bound in its own body,
+    minus nonlocal / global declarations"""
+    a = node.args
+    out = {x.arg for x in a.posonlyargs + a.args + a.kwonlyargs}
+    if a.vararg:
+        out.add(a.vararg.arg)
+    if a.kwarg:
+        out.add(a.kwarg.arg)
+    if isinstance(node, ast.Lambda):
+        body = [node.body]
+    else:
+        body = node.body
+    outer = set()
+    for n in _own_nodes(body):
+        if isinstance(n, ast.Name) and isinstance(n.ctx, (ast.Store, ast.Del)):
+            out.add(n.id)
+        elif isinstance(n, (ast.FunctionDef, ast.AsyncFunctionDef, ast.ClassDef)):
+            out.add(n.name)
+        elif isinstance(n, (ast.Import, ast.ImportFrom)):
+            for al in n.names:
+                out.add((al.asname or al.name).split(".")[0])
+        elif isinstance(n, ast.ExceptHandler) and n.name:
+            out.add(n.name)
+        elif isinstance(n, (ast.Global, ast.Nonlocal)):
+            outer.update(n.names)
+        elif type(n).__name__ in ("MatchAs", "MatchStar") and getattr(n, "name", None):
+            out.add(n.name)
+        elif type(n).__name__ == "MatchMapping" and getattr(n, "rest", None):
+            out.add(n.rest)
+    return out - outer
+
+
+def escaping_defs(body):
+    """names of nested defs (at any depth of `body`) some load of which is NOT the callee of a
+    call with plain arguments: such a function object may be called from anywhere"""
+    defs = set()
+    callee_ids = set()
+    bad_call = set()
+    for st in body:
+        for n in ast.walk(st):
+            if isinstance(n, (ast.FunctionDef, ast.AsyncFunctionDef)):
+                defs.add(n.name)
+            elif isinstance(n, ast.Call) and isinstance(n.func, ast.Name):
+                callee_ids.add(id(n.func))
+                if any(isinstance(x, ast.Starred) for x in n.args) or any(kw.arg is None for kw in n.keywords):
+                    bad_call.add(n.func.id)
+    out = set(bad_call) & defs
+    for st in body:
+        for n in ast.walk(st):
+            if isinstance(n, ast.Name) and isinstance(n.ctx, ast.Load) and n.id in defs and id(n) not in callee_ids:
+                out.add(n.id)
+    return out
+
+
 class FnInfo:
     def __init__(self, qual, module, node, cls=None):
         self.qual = qual                # emitted name
@@ -195,16 +286,45 @@ class Analyser:
         self.env_fi = None
         self.weak = 0
         self.fi_mode = False
-        self.nested = {}                # name -> {"ret": taint, "decorated": bool}
-        self.ret_stack = []             # names of nested functions being analysed
+        self.nested = {}                # scoped name -> {"ret": taint, "decorated": bool, "escapes": bool, "defs": [...]}
+        self.ret_stack = []             # scoped names of nested functions being analysed
+        self.scope = 0                  # 0 = the function itself
+        self.scopes = {0: {"parent": None, "locals": None}}
+        self.scope_ids = {}             # id(ast node) -> scope number
+        self.nparams = {}               # (scoped function name, parameter) -> join of the actuals
+        self.escaping = set()           # names of nested defs that escape (by name)
         self.cache_self = info.cls is not None
 
     # ---- environment -------------------------------------------------------------
+    def k(self, name):
+        """the variable `name` denotes in the current scope (Python's static scoping)"""
+        s = self.scope
+        while s:
+            sc = self.scopes[s]
+            if name in sc["locals"]:
+                return f"{name}@{s}"
+            s = sc["parent"]
+        return name
+
+    def has(self, name):
+        return self.k(name) in self.env
+
+    def enter(self, node):
+        """scope of a nested def / lambda"""
+        sid = self.scope_ids.get(id(node))
+        if sid is None:
+            sid = self.scope_ids[id(node)] = len(self.scopes)
+            self.scopes[sid] = {"parent": self.scope, "locals": scope_locals(node)}
+        old = self.scope
+        self.scope = sid
+        return old
+
     def look(self, name):
-        return self.env.get(name, EMPTY)
+        return self.env.get(self.k(name), EMPTY)
 
     def assign(self, name, t):
-        if self.fi_mode or self.weak:
+        name = self.k(name)
+        if self.fi_mode or self.weak or "@" in name:
             self.env[name] = join(self.env.get(name, EMPTY), t)
         else:
             self.env[name] = t
@@ -218,9 +338,10 @@ class Analyser:
             n = n.value
             depth += 1
         if isinstance(n, ast.Name):
-            cur = self.env.get(n.id, EMPTY)
+            key = self.k(n.id)
+            cur = self.env.get(key, EMPTY)
             add = wrap(t) if depth == 0 else (FS(), FS(), allof(t))
-            self.env[n.id] = (cur[0], cur[1] | add[1], cur[2] | add[2])
+            self.env[key] = (cur[0], cur[1] | add[1], cur[2] | add[2])
 
     # ---- recording -----------------------------------------------------------------
     def ctx_attr(self, expr):
@@ -302,8 +423,8 @@ class Analyser:
         return EMPTY
 
     def ev_Name(self, n):
-        if n.id in self.env:
-            return self.env[n.id]
+        if self.has(n.id):
+            return self.env[self.k(n.id)]
         g = self.w.resolve(self.info.module, n.id)
         if g is not None:
             # a function mentioned by name outside the callee position: whoever gets it may
@@ -352,7 +473,7 @@ class Analyser:
         return elems(base)
 
     def ev_Attribute(self, n):
-        if isinstance(n.value, ast.Name) and n.value.id not in self.env and n.value.id in EXTERNAL_MODULES:
+        if isinstance(n.value, ast.Name) and not self.has(n.value.id) and n.value.id in EXTERNAL_MODULES:
             return EMPTY
         return elems(self.ev(n.value))
 
@@ -425,12 +546,14 @@ class Analyser:
         if not self.fi_mode:
             saved = self.env
             self.env = dict(self.env_fi if self.env_fi is not None else self.env)
+        old = self.enter(n)
         self.weak += 1
         for nm in names:
             self.assign(nm, (self.all, self.all, self.all))
         t = self.ev(n.body)
         t = join(t, self.ev(n.body))
         self.weak -= 1
+        self.scope = old
         if saved is not None:
             self.env = saved
         return t if immediate else fresh(t)
@@ -475,13 +598,17 @@ class Analyser:
 
         if isinstance(f, ast.Name):
             name = f.id
-            if name in self.nested and name in self.env:
-                r = self.nested[name]["ret"]
-                return join(r, shallow(r)) if self.nested[name]["decorated"] else r
-            if name in self.env:
+            key = self.k(name)
+            if key in self.nested and key in self.env:
+                ent = self.nested[key]
+                if not ent["escapes"]:
+                    self.bind_actuals(key, ent, n, argt, kwt)
+                r = ent["ret"]
+                return join(r, shallow(r)) if ent["decorated"] else r
+            if key in self.env:
                 # a function value held in a variable / parameter (user lambda, element passed in)
                 self.info.dyncalls += 1
-                return both(join(self.env[name], everything))
+                return both(join(self.env[key], everything))
             g = self.w.resolve(self.info.module, name)
             if g is not None:
                 if self.template and name == "pop" and n.args and isinstance(n.args[0], ast.Name) and n.args[0].id == "stack":
@@ -495,7 +622,7 @@ class Analyser:
                 return self.module_call(g, argt, kwt, n)
             if name in SHALLOW_CALLS and argt and not kwt:
                 return shallow(argt[-1][1])
-            if name == "map" and len(n.args) >= 2 and isinstance(n.args[0], ast.Name) and n.args[0].id not in self.env \
+            if name == "map" and len(n.args) >= 2 and isinstance(n.args[0], ast.Name) and not self.has(n.args[0].id) \
                     and self.w.resolve(self.info.module, n.args[0].id) is None:
                 rest = EMPTY
                 for _, t in argt[1:]:
@@ -526,7 +653,7 @@ class Analyser:
             root = recv
             while isinstance(root, ast.Attribute):
                 root = root.value
-            if isinstance(root, ast.Name) and root.id not in self.env and (root.id in EXTERNAL_MODULES or root.id == "vyxal"):
+            if isinstance(root, ast.Name) and not self.has(root.id) and (root.id in EXTERNAL_MODULES or root.id == "vyxal"):
                 if root.id == "vyxal":
                     g = self.w.resolve(self.info.module, meth)
                     if g is not None:
@@ -683,7 +810,7 @@ class Analyser:
                     and not isinstance(s.value.value, bool)
                 if isinstance(s.op, ast.Mult) or (isinstance(s.op, ast.Add) and not numeric):
                     self.site(s, "augassign", cur[0])
-                self.env[s.target.id] = (cur[0], cur[1] | tv[0] | tv[1], cur[2] | tv[2])
+                self.env[self.k(s.target.id)] = (cur[0], cur[1] | tv[0] | tv[1], cur[2] | tv[2])
             elif isinstance(s.target, (ast.Subscript, ast.Attribute)):
                 base = self.ev(s.target.value)
                 if isinstance(s.target, ast.Subscript):
@@ -754,41 +881,88 @@ class Analyser:
             # class definitions, match statements, ...: fail-closed
             self.site(s, "unsupported-statement:" + type(s).__name__, self.all)
 
+    def bind_actuals(self, key, ent, call, argt, kwt):
+        """a call site of a nested def that does not escape: the actuals flow into its parameters"""
+        for d in ent["defs"]:
+            a = d.args
+            pos = [x.arg for x in a.posonlyargs + a.args]
+            j = 0
+            for star, t in argt:
+                if j < len(pos):
+                    self.nparam(key, pos[j], t)
+                elif a.vararg:
+                    self.nparam(key, a.vararg.arg, wrap(t))
+                j += 1
+            names = set(pos) | {x.arg for x in a.kwonlyargs}
+            for kw, t in kwt:
+                if kw in names:
+                    self.nparam(key, kw, t)
+                elif a.kwarg:
+                    self.nparam(key, a.kwarg.arg, wrap(t))
+
+    def nparam(self, key, pname, t):
+        cur = self.nparams.get((key, pname), EMPTY)
+        self.nparams[(key, pname)] = join(cur, t)
+
     def nested_def(self, s):
         decorated = bool(s.decorator_list)
-        ent = self.nested.setdefault(s.name, {"ret": EMPTY, "decorated": decorated})
+        key = self.k(s.name)                     # the def binds its name in the enclosing scope
+        escapes = s.name in self.escaping or any(
+            not (isinstance(d, ast.Name) and d.id == "lazylist") for d in s.decorator_list)
+        ent = self.nested.setdefault(key, {"ret": EMPTY, "decorated": decorated, "escapes": escapes, "defs": []})
+        ent["escapes"] = ent["escapes"] or escapes
+        ent["decorated"] = ent["decorated"] or decorated
+        if s not in ent["defs"]:
+            ent["defs"].append(s)
         a = s.args
         names = [x.arg for x in a.posonlyargs + a.args + a.kwonlyargs]
         if a.vararg:
             names.append(a.vararg.arg)
         if a.kwarg:
             names.append(a.kwarg.arg)
+        # defaults are evaluated where the def stands
+        pos = [x.arg for x in a.posonlyargs + a.args]
+        dflt = {}
+        for nm, d in zip(pos[len(pos) - len(a.defaults):], a.defaults):
+            dflt[nm] = self.ev(d)
+        for x, d in zip(a.kwonlyargs, a.kw_defaults):
+            if d is not None:
+                dflt[x.arg] = self.ev(d)
         saved = None
         if not self.fi_mode:
             saved = self.env
             self.env = dict(self.env_fi if self.env_fi is not None else self.env)
+        old = self.enter(s)
         self.weak += 1
-        self.ret_stack.append(s.name)
+        self.ret_stack.append(key)
         for nm in names:
-            self.assign(nm, (self.all, self.all, self.all))
+            if ent["escapes"]:
+                self.assign(nm, (self.all, self.all, self.all))
+            else:
+                self.assign(nm, join(self.nparams.get((key, nm), EMPTY), dflt.get(nm, EMPTY)))
         for _ in range(3):
             self.block(s.body)
         self.ret_stack.pop()
         self.weak -= 1
+        self.scope = old
         if saved is not None:
             self.env = saved
         self.assign(s.name, EMPTY)
         return ent
 
     # ---- driver ---------------------------------------------------------------------
+    def facts(self):
+        return (dict(self.env), {k: v["ret"] for k, v in self.nested.items()}, dict(self.nparams))
+
     def run(self, body):
         init = dict(self.env)
+        self.escaping = escaping_defs(body)
         # pass 1: flow-insensitive fixed point (what a closure may see)
         self.fi_mode = True
         for _ in range(40):
-            before = (dict(self.env), {k: v["ret"] for k, v in self.nested.items()})
+            before = self.facts()
             self.block(body)
-            if (self.env, {k: v["ret"] for k, v in self.nested.items()}) == before:
+            if self.facts() == before:
                 break
         self.env_fi = dict(self.env)
         uses_scope_stmt = any(isinstance(x, (ast.Global, ast.Nonlocal)) for st in body for x in ast.walk(st))
@@ -803,9 +977,12 @@ class Analyser:
         self.info.ctx_inplace.clear()
         self.fi_mode = False
         self.env = init
-        for _ in range(3):       # nested return facts feed calls made before the def is re-read
+        for _ in range(12):      # nested return / parameter facts feed calls made before the def is re-read
+            before = self.facts()[1:]
             self.env = dict(init)
             self.block(body)
+            if _ >= 2 and self.facts()[1:] == before:
+                break
 
 
 class World:
